@@ -281,6 +281,22 @@ def _run(plan, scratch, log, stats, violation):
             violation("C07.chunk-content", "calculate_distance_matrix",
                       f"chunk {ci}/{n_chunks} holds pairs {sorted(got)[:4]}.. expected {sorted(wantset)[:4]}..")
             return
+        tr = sub_rng(plan["theta_seed"], "torn", ci)
+        if tr.random() < 0.08:
+            # fault store.torn-save: a chunk file cut off while being written must be refused or read as the chunk it is
+            dg = pipe.dist_file_digest(path)
+            verdict = pipe.torn_roundtrip(m.save, ChunkedDistanceMatrix.load,
+                                          lambda g: digest([int(g.size), g.row_indices[:g.current_index].tolist(), g.col_indices[:g.current_index].tolist(),
+                                                            f64_bits(g.values[:g.current_index]).tolist()]) == dg,
+                                          scratch.file("count.h5"), scratch.file("torn.h5"), tr.random())
+            if verdict:
+                stats.fault("store.torn-save")
+                stats.probe("torn_archive_" + verdict)
+                log.ev("torn", ci, verdict)
+            if verdict == "different":
+                violation("C07.torn-archive-read-as-something-else", "ChunkedDistanceMatrix.load",
+                          f"a distance chunk file whose writing was cut off was accepted and reads as other content than chunk {ci}")
+                return
 
     def assemble(file_seq):
         mats = [ChunkedDistanceMatrix.load(p) for p in file_seq]  # fresh objects: only files cross
